@@ -176,7 +176,7 @@ def run_fault(ctx: Ctx, api, P, kind, pos, call, reps):
 
 def main(ctx: Ctx):
     ctx.lean_gate()
-    n = 60 if ctx.tier == "quick" else 4000
+    n = 60 if ctx.tier == "quick" else 1500
     reps = 3 if ctx.tier == "quick" else 5
     for i in range(n):
         P = random_program(ctx.rng, p_norg=0.3)
